@@ -688,3 +688,41 @@ def _parse_check_search():
             return ({'rule': text}, '_parse_check(%r) built %s with fields %r, printing %r' % (
                 text, type(c).__name__, getattr(c, '__dict__', {}), str(c)))
     return None
+
+
+@_search('generator:_format_rule_line')
+def _format_rule_line_search():
+    """the emitted line is jdumps(name) + ': ' + jdumps(check_str) and reads back, as JSON and as YAML, to the pair"""
+    import json
+    import yaml
+    from oslo_policy import generator
+    from oslo_serialization import jsonutils
+    names = ['svc:get', 'a"b', 'back\\slash', 'tab\there', 'nl\nname', 'ünï', 'x' * 120, '', "it's", '#hash', 'a: b', '\x01ctl', '\x7f',
+             ' sep', '\x85nel', '{brace}', '%(k)s']
+    values = ['role:admin', '', 'role:reader\tor rule:owner', 'a "quoted" word', "'lit':%(x)s", 'line\nbreak', 'back\\slash',
+              [['role:a'], ['role:b', 'role:c']], [], 'x ' * 100, '\x0bvt', '\x1f', 'é ', '@', '!', '#', '- x', '? x', '*a', '&a',
+              'yes', 'null', '~', '0x1f', '1e3', ' lead', 'trail ', '\x85', ' ']
+    for n in names:
+        for v in values:
+            try:
+                line = generator._format_rule_line(n, v)
+            except Exception as e:      # noqa
+                return ({'name': n, 'check_str': v}, '_format_rule_line(%r, %r) raised %s' % (n, v, type(e).__name__))
+            want = '%s: %s' % (jsonutils.dumps(n), jsonutils.dumps(v))
+            detail = None
+            if line != want:
+                detail = '_format_rule_line(%r, %r) gave %r, the contract says %r' % (n, v, line, want)
+            else:
+                try:
+                    if json.loads('{%s}' % line) != {n: v}:
+                        detail = 'the line %r does not read back as JSON to {%r: %r}' % (line, n, v)
+                    elif '\n' in line or yaml.safe_load('{%s}' % line if False else line) != {n: v}:
+                        detail = 'the line %r does not read back as YAML to {%r: %r}' % (line, n, v)
+                except Exception as e:      # noqa
+                    detail = 'the line %r cannot be read back (%s)' % (line, type(e).__name__)
+            if detail:
+                return ({'name': n, 'check_str': v}, detail)
+    return None
+
+
+SEARCH['generator:_format_rule_default_json'] = _format_rule_line_search
